@@ -223,3 +223,16 @@ Proof.
     destruct (pcsr (runr sched initr) h); cbn in Hpc; try contradiction; discriminate.
   - exists i. split; [|reflexivity]. unfold stepr. destruct HI as [Hid _]. rewrite (Hid i), EL. discriminate.
 Qed.
+
+(* the runner's per-step states are exactly the states of [runr] on the prefixes of the schedule *)
+Lemma runr_trace_nth : forall sched s n, (n < List.length sched)%nat ->
+  nth_error (runr_trace sched s) n = Some (runr (firstn (S n) sched) s).
+Proof.
+  induction sched as [|i sched IH]; intros s n Hn; cbn [List.length] in Hn; [lia|].
+  destruct n as [|n]; cbn [runr_trace nth_error firstn].
+  - unfold runr. destruct sched; reflexivity.
+  - rewrite IH by lia. unfold runr. cbn [fold_left firstn]. reflexivity.
+Qed.
+
+Lemma runr_trace_length : forall sched s, List.length (runr_trace sched s) = List.length sched.
+Proof. induction sched as [|i sched IH]; intro s; cbn [runr_trace List.length]; [reflexivity | rewrite IH; reflexivity]. Qed.
